@@ -62,6 +62,13 @@ class Window:
         f = base + first_fitting([(r, len(b)) for r, b in self.hist[base:]], self.S)
         self.hi = min(max(self.hi, f), len(self.hist) - 1)
 
+    def reserve(self, reserved):
+        """qb_rb_chunk_alloc(reserved) on its own (the commit comes later): the writer may drop now whatever does not fit
+        together with the reservation"""
+        base = self.lo
+        f = base + first_fitting([(r, len(b)) for r, b in self.hist[base:]] + [(reserved, 0)], self.S)
+        self.hi = min(max(self.hi, f), len(self.hist))
+
     def maybe_empty(self):
         return self.hi >= len(self.hist)
 
@@ -136,6 +143,9 @@ def monitor_ring(script, lines):
                 return "open of a ring of size %d failed" % S
             continue
         if win is None:
+            continue
+        if c == "a":
+            win.reserve(int(op.split()[1]))         # split stage: a successful alloc whose commit follows later
             continue
         if c in "WARPX" and r is None:
             return "no result line for %r" % op[:40]
@@ -462,3 +472,132 @@ def judge_bb(impl, mod):
         return ("correspondence", "observable %d differs: impl %r model %r" % (d[0], d[1][:200], d[2][:200]),
                 {"first_difference": [d[0], d[1][:400], d[2][:400]]})
     return None
+
+
+# ------------------------------------------------------------------ split stage: alloc / copy / commit as separate calls
+def gen_split_case(rng, nops, seqbase=0):
+    """ring commands of harness/h_rbow.c (lower case).  Reservations are followed by the owner's reader operations,
+    the copy (sometimes twice, the last one counts) and the commit of exactly what was copied; reads and peeks use
+    ms_timeout 0, small positive values and - only where a notification is certainly pending - -1."""
+    S = rng.choice(R.SIZES) if rng.random() < 0.8 else rng.randrange(1, 13000)
+    ow = rng.random() < 0.5
+    nosem = rng.random() < 0.4
+    flags = ("o" if ow else "") + ("n" if nosem else "") or "-"
+    tr = R.Tracker(S, ow)
+    ops = ["o %d %s" % (S, flags)]
+    seq = seqbase
+
+    def reader(certain_token=False):
+        r = rng.random()
+        ms = rng.choice([0, 0, 1, 3, 50, 1000] + ([-1] if certain_token else []))
+        head = tr.q[0] if tr.q else 0
+        if r < 0.5:
+            n = rng.choice([max(head, 1), head, head + 64, 70000, max(0, head - 1), 0])
+            ops.append("r %d %d" % (n, ms))
+            if tr.q and n >= head:
+                tr.q.pop(0)
+        elif r < 0.75:
+            ops.append("p %d" % ms)
+            if rng.random() < 0.7 and tr.q:
+                ops.append("x")
+                tr.q.pop(0)
+        elif r < 0.85:
+            ops.append("x")
+            if tr.q:
+                tr.q.pop(0)
+        else:
+            ops.append("d")
+
+    for _ in range(nops):
+        r = rng.random()
+        if r < 0.22:
+            n = R.pick_len(rng, tr)
+            seq += 1
+            ops.append("w %s" % R.hexs(R.payload(rng, n, seq)))
+            ok = tr.write(n, n)
+            if ow and not nosem and n <= S and rng.random() < 0.3:
+                reader(certain_token=True)
+        elif r < 0.62:
+            n = R.pick_len(rng, tr)
+            rlen = n + rng.choice([0, 0, 1, 3, 16, 100, 512, 600])
+            seq += 1
+            ops.append("a %d" % rlen)
+            for _ in range(rng.choice([0, 0, 1, 2, 3])):
+                reader()
+            if rng.random() < 0.25:
+                m = rng.randrange(0, rlen + 1)
+                ops.append("f %s" % R.hexs(R.payload(rng, m, seq, "rand")))          # overwritten by the next copy
+                if m > n:
+                    n = m                                                          # stale tail would be committed otherwise
+            body = R.payload(rng, n, seq)
+            ops.append("f %s" % R.hexs(body))
+            for _ in range(rng.choice([0, 0, 1, 2])):
+                reader()
+            ops.append("c %d" % n)
+            tr.write(rlen, n)
+        else:
+            reader()
+    ops += ["r 70000 0"] * (len(tr.q) + 2)
+    ops.append("d")
+    return ops
+
+
+def split_to_composite(script, lines):
+    """the script and log of a split case in the vocabulary of harness/h_rb.c (composite `A rlen hex' at the position of
+    the commit, or of the alloc when that failed), for the monitors that state C07 / C11 -> (script, lines)"""
+    vs, vl = [], []
+    overwrite = "o" in script[0].split()[2]
+    i = 0
+    rlen = None
+    fill = "-"
+    failed = False
+
+    def take(prefixes):
+        nonlocal i
+        out = []
+        while i < len(lines) and lines[i].split(" ", 1)[0] in prefixes:
+            out.append(lines[i])
+            i += 1
+            if out[-1].startswith("q "):
+                break
+        return out
+    for op in script:
+        p = op.split()
+        c = p[0]
+        if c == "o":
+            vs.append("O %s %s" % (p[1], p[2]))
+            vl += take(("o", "q"))
+        elif c == "w":
+            vs.append("W %s" % p[1])
+            vl += take(("r", "q"))
+        elif c == "a":
+            rlen, fill, failed = int(p[1]), "-", False
+            if i < len(lines) and lines[i].startswith("ra "):
+                i += 1
+                if overwrite:
+                    vs.append("a %d" % rlen)      # the drop happens now and is visible to the reader operations
+            else:
+                failed = True
+                vs.append("A %d -" % rlen)
+                vl += take(("r", "q"))
+        elif c == "f":
+            fill = p[1]
+        elif c == "c":
+            if not failed and rlen is not None:
+                vs.append("A %d %s" % (rlen, fill))
+                vl += take(("r", "q"))
+            rlen = None
+        elif c == "r":
+            vs.append("R %s" % p[1])
+            vl += take(("r", "q"))
+        elif c == "p":
+            vs.append("P")
+            vl += take(("r", "q"))
+        elif c == "x":
+            vs.append("X")
+            vl += take(("r", "q"))
+        elif c == "d":
+            vs.append("D")
+            vl += take(("d", "q"))
+    vl += lines[i:]
+    return vs, vl
